@@ -32,7 +32,8 @@ UNIVERSES['UT'] = UT
 UNIVERSES['UTS'] = UTS
 IMAGE = {'a': 'x', 'a_b': 'x_b', 'a_b_c': 'x_b_c'}
 
-PAIRS = ['same_mem', 'two_mem', 'mem_to_alt', 'same_alt', 'alt_to_mem', 'same_ovl', 'ovl_to_mem', 'mem_to_ovl', 'same_altalt']
+PAIRS = ['same_mem', 'two_mem', 'mem_to_alt', 'same_alt', 'alt_to_mem', 'same_ovl', 'ovl_to_mem', 'mem_to_ovl', 'same_altalt',
+         'same_phys', 'phys_to_mem', 'mem_to_phys', 'two_phys']
 
 
 def make_pair(sr, pair):
@@ -62,6 +63,14 @@ def make_pair(sr, pair):
         sr.do('join S_q M %s' % hx(b'q'))
         sr.do('create_dir S_q')
         sr.do('fs S alt S_q'); same = True
+    elif pair == 'same_phys':
+        sr.do('fs S phys'); same = True
+    elif pair == 'phys_to_mem':
+        sr.do('fs S phys'); sr.do('fs D mem'); same = False
+    elif pair == 'mem_to_phys':
+        sr.do('fs S mem'); sr.do('fs D phys'); same = False
+    elif pair == 'two_phys':
+        sr.do('fs S phys'); sr.do('fs D phys'); same = False
     elif pair == 'same_ovl':
         ovl('S'); same = True
     elif pair == 'ovl_to_mem':
